@@ -61,14 +61,25 @@ def incorpXK (sch : Schema) (k : Kind) (o : InsIdxX) (v : Operand α lab) (s : S
   let r ← reduceIns sch k (s.len sch k) (operandLen sch k v) o v
   incorpK sch k r.1 r.2 s
 
-/-- `insert_<k>(numpy.array(i), values, …)`: a 0-d ndarray position is neither `int` nor `numpy.integer`, so the wrapping of
-    fix 74ad0b65 (`wrapIns`) does not apply and the position reaches numpy.insert as a scalar — on a non-leading axis the
-    `moveaxis` rule scrambles the block while the labels are placed correctly (defect D17b) -/
-def insertZeroDimK (sch : Schema) (k : Kind) (i : Int) (v : Operand α lab) (s : St α lab) : R (St α lab) := do
+/-- `insert_<k>(numpy.array(i), values, …)` as it was BEFORE the repair of D17b: a 0-d ndarray position is neither `int`
+    nor `numpy.integer`, so the wrapping of fix 74ad0b65 (`wrapIns`) did not apply and the position reached numpy.insert as
+    a scalar — on a non-leading axis the `moveaxis` rule scrambled the block while the labels were placed correctly.
+    Only used by `insert_zero_dim_array_position_prerepair_counterexample`. -/
+def insertZeroDimKPrerepair (sch : Schema) (k : Kind) (i : Int) (v : Operand α lab) (s : St α lab) : R (St α lab) := do
   (newObj sch k (← insertCoreRaw sch k (.int i) v s)).checkCtor sch
 
-/-- `incorp_<k>(numpy.array(i), values, …)` -/
-def incorpZeroDimK (sch : Schema) (k : Kind) (i : Int) (v : Operand α lab) (s : St α lab) : R (St α lab) :=
+/-- `incorp_<k>(numpy.array(i), values, …)` before the repair of D17b -/
+def incorpZeroDimKPrerepair (sch : Schema) (k : Kind) (i : Int) (v : Operand α lab) (s : St α lab) : R (St α lab) :=
   insertCoreRaw sch k (.int i) v s
+
+/-- `insert_<k>(numpy.array(i), values, …)` as the code is now (repair of D17b:
+    `isinstance(obj, (int, numpy.integer)) or (isinstance(obj, numpy.ndarray) and obj.ndim == 0)`): the 0-d position is
+    wrapped exactly like a Python / numpy integer -/
+def insertZeroDimK (sch : Schema) (k : Kind) (i : Int) (v : Operand α lab) (s : St α lab) : R (St α lab) :=
+  insertK sch k (.int i) v s
+
+/-- `incorp_<k>(numpy.array(i), values, …)` as the code is now -/
+def incorpZeroDimK (sch : Schema) (k : Kind) (i : Int) (v : Operand α lab) (s : St α lab) : R (St α lab) :=
+  incorpK sch k (.int i) v s
 
 end LabelMat
